@@ -26,18 +26,21 @@ def norm_opts(o):
 
 
 _LONG = {"-i": "--input", "-o": "--output", "-a": "--anonymize-ips", "-p": "--anonymize-passwords", "-u": "--undo",
-         "-s": "--salt", "-w": "--sensitive-words", "-n": "--as-numbers", "-r": "--reserved-words", "-d": "--dump-ip-map"}
+         "-s": "--salt", "-w": "--sensitive-words", "-n": "--as-numbers", "-r": "--reserved-words", "-d": "--dump-ip-map",
+         "-l": "--log-level"}
 
 
 _CFG_SAFE = re.compile(r"[A-Za-z0-9.,/:_-]+\Z")
 
 
-def cli_argv(o, inp, out, dump=None, style=0, cfg_sink=None):
+def cli_argv(o, inp, out, dump=None, style=0, cfg_sink=None, log_level=None):
     """The command line for an option set.  `style` (from the plan's knobs) picks long or short option names, the
     `--opt=value` spelling and the order of the groups; all spellings are equivalent for the documented CLI.
     With bit 8 (and a `cfg_sink` that stores a text and returns its path) the options whose values are plain are given
     in a configuration file instead (`-c`), next to decoy values for options that stay on the command line, which wins."""
     argv = _cli_groups(o, inp, out, dump)
+    if log_level:
+        argv.append(["-l", log_level])        # the run's logging level, asked for on the command line as well
     if style & 8 and cfg_sink is not None:
         keep, cfg = [], ["# written by the harness"]
         for g in argv:
@@ -203,7 +206,8 @@ def run_step(fs, proc, step, hist):
                 fs.files[path] = bytearray(text.encode("utf-8"))
                 return path
 
-            proc.nc.main(cli_argv(o, inp, out, dump, style=(fs.knobs or {}).get("cli_style", 0), cfg_sink=cfg_sink))
+            proc.nc.main(cli_argv(o, inp, out, dump, style=(fs.knobs or {}).get("cli_style", 0), cfg_sink=cfg_sink,
+                                  log_level=(fs.knobs or {}).get("log_level")))
         elif entry == "files":
             proc.af.anonymize_files(inp, out, **api_kwargs(o, dump))
         elif entry in ("file", "io"):
